@@ -123,7 +123,8 @@ func composeBuilderForType(schemas ast.Schemas, builders ast.Builders, config Co
 		Package:     composableBuilders[0].Package,
 		For:         sourceBuilder.For,
 		Name:        sourceBuilder.For.Name,
-		Constructor: sourceBuilder.Constructor,
+		// every composed builder appends to its constructor: they can't share the source's slices
+		Constructor: sourceBuilder.Constructor.DeepCopy(),
 		Properties:  sourceBuilder.Properties,
 	}
 	if config.ComposedBuilderName != "" {
